@@ -40,12 +40,34 @@ def is_sender_test(node):
     return None
 
 
-def hex_format_width(node):
+def local_int_env(fn):
+    """names a function binds exactly once to a constant integer expression, and `assert X == <int>` facts:
+    environment for eval_int"""
+    env = {}
+    counts = {}
+    for n in ast.walk(fn):
+        if isinstance(n, ast.Name) and isinstance(n.ctx, ast.Store):
+            counts[n.id] = counts.get(n.id, 0) + 1
+    for _ in range(3):
+        for n in ast.walk(fn):
+            if isinstance(n, ast.Assign) and len(n.targets) == 1 and isinstance(n.targets[0], ast.Name) and counts.get(n.targets[0].id) == 1:
+                v = eval_int(n.value, env)
+                if v is not None:
+                    env[n.targets[0].id] = v
+            elif isinstance(n, ast.Assert) and isinstance(n.test, ast.Compare) and len(n.test.ops) == 1 and isinstance(n.test.ops[0], ast.Eq):
+                d = dotted(n.test.left)
+                v = eval_int(n.test.comparators[0], env)
+                if d and v is not None:
+                    env[d] = v
+    return env
+
+
+def hex_format_width(node, env=None):
     """bytes produced by unhexlify(f"{X:0Nx}") / unhexlify("%0Nx" % X): returns (N // 2, X) or None"""
     if isinstance(node, ast.Call) and isinstance(node.func, ast.Attribute) and node.func.attr == "to_bytes" and node.args:
         # X.to_bytes(N, "big")
         order = node.args[1] if len(node.args) > 1 else next((k.value for k in node.keywords if k.arg == "byteorder"), None)
-        n = eval_int(node.args[0])
+        n = eval_int(node.args[0], env)
         if n is not None and order is not None and const(order) == "big":
             return n, node.func.value
     if isinstance(node, ast.Call) and ((dotted(node.func) or "").split(".")[-1] == "unhexlify" or dotted(node.func) == "bytes.fromhex") \
